@@ -37,6 +37,7 @@
 #include <stdio.h>
 #include <stdint.h>
 #include <alloca.h>
+#include <malloc.h>
 #include <sys/stat.h>
 #include <sys/types.h>
 #include "opus.h"
@@ -129,10 +130,11 @@ typedef struct kind {
 static kind_t *K;
 static opdef OPS[MAXOPS]; static int NOPS, RESET_OP=-1;
 static int D=4;                       /* total history depth bound */
-static int g_bsel[16], g_nbsel;       /* selected bases */
+static int g_bsel[96], g_nbsel;       /* selected bases */
+static int g_twins_all;               /* --twins 8: every prefix point gets a twin under each of 4 block poisons (init path) and 4 heap poisons (create path) */
 
 static mc_set *g_visited,*g_distinct,*g_obsset;
-static mc_ctr *c_states,*c_trans,*c_eval,*c_dn,*c_exec,*c_clone,*c_reset,*c_twin,*c_twin_bytes_differ,*c_garbage,*c_garbage_twin,*c_reset_unclassified,*c_reset_implied,*c_reset_stale,*c_fresh,*c_selfloop,*c_prefix[MAXD+1];
+static mc_ctr *c_states,*c_trans,*c_eval,*c_dn,*c_exec,*c_clone,*c_reset,*c_twin,*c_twin_bytes_differ,*c_garbage,*c_garbage_twin,*c_reset_unclassified,*c_reset_implied,*c_reset_stale,*c_dirty_seen,*c_fresh,*c_selfloop,*c_prefix[MAXD+1];
 
 /* ------------------------------------------------------------------ op execution at a fixed stack pointer */
 static char *g_sp_target;
@@ -430,17 +432,32 @@ static void foreign_calls(OpusEncoder *fe,OpusDecoder *fd,OpusDecoder *fd2,int s
    if (fd) opus_decode(fd,NULL,0,out,480,0);
    { size_t sz=1000+(size_t)(step%7)*4096; unsigned char *j=malloc(sz); memset(j,0x3C+step,sz); free(j); }
 }
-/* builds the twin over stack garbage `pat`, compares its observations along the history when cmp, returns its final image */
-static void run_twin(int pat,int cmp,unsigned char *timg){
-   long ser=X.serial; int k=(int)(ser%4),i,err; OpusEncoder *fe=NULL; OpusDecoder *fd=NULL,*fd2=NULL; void *junk=NULL;
-   oblock T; void *lib=NULL; unsigned char *obj; int use_create=(int)((ser/4)&1);
+/* create() path: hand the allocator dirty memory of the right size first (effective with plain glibc malloc; the sanitizer
+ * allocators quarantine freed blocks, there the counter create_saw_dirty_heap stays 0 and only the init path varies the contents) */
+static const int TWPOISON[4]={0x00,0xFF,0xA5,0x01};
+static void dirty_heap(size_t n,int poison){
+   unsigned char *a=malloc(n),*b2=malloc(n+64),*c=malloc(n); 
+   if(a) memset(a,poison,n); if(b2) memset(b2,poison,n+64); if(c) memset(c,poison,n);
+   __asm__ volatile(""::"r"(a),"r"(b2),"r"(c):"memory");      /* keep the stores: the compiler would drop a memset that is followed by free() */
+   free(c); free(a); free(b2);
+#if !C12_ASAN && !C12_MSAN
+   { unsigned char *q=malloc(n); if(q){ if(q[n/2]==(unsigned char)poison && q[n-1]==(unsigned char)poison && poison!=0) MC_INC(c_dirty_seen); free(q); } }
+#endif
+}
+/* builds the twin over stack garbage `pat`, compares its observations along the history when cmp, returns its final image.
+ * variant <0: one construction chosen by the state hash; 0..3: init into a block pre-filled with TWPOISON[v];
+ * 4..7: library create() after dirtying the heap with TWPOISON[v-4]. */
+static void run_twin(int pat,int cmp,unsigned char *timg,int variant){
+   long ser=X.serial; int k=(int)((ser+(variant<0?0:variant))%4),i,err; OpusEncoder *fe=NULL; OpusDecoder *fd=NULL,*fd2=NULL; void *junk=NULL;
+   oblock T; void *lib=NULL; unsigned char *obj; int use_create= variant<0? (int)((ser/4)&1) : variant>=4;
+   int poison = variant<0? POISONS[(ser+2)%3] : TWPOISON[variant&3];
    /* 0-3 unrelated objects exist while the twin is created and used */
    if (k>=1) fd=opus_decoder_create(48000,2,&err);
    if (k>=2) fe=opus_encoder_create(16000,1,OPUS_APPLICATION_VOIP,&err);
    if (k>=3){ fd2=opus_decoder_create(16000,1,&err); junk=malloc(77777); memset(junk,0x6B,77777); }
    foreign_calls(fe,fd,fd2,0);
-   if (use_create){ lib=K->create(X.b); if(!lib){ fprintf(stderr,"c12: create failed\n"); exit(2);} obj=lib; }
-   else { ob_new(&T,X.n,(ser&1)?0:8,POISONS[(ser+2)%3]); if(K->init(T.obj,X.b)!=OPUS_OK){ fprintf(stderr,"c12: init failed\n"); exit(2);} obj=T.obj; }
+   if (use_create){ if (variant>=0) dirty_heap(X.n,poison); lib=K->create(X.b); if(!lib){ fprintf(stderr,"c12: create failed\n"); exit(2);} obj=lib; }
+   else { ob_new(&T,X.n,(ser&1)?0:8,poison); if(K->init(T.obj,X.b)!=OPUS_OK){ fprintf(stderr,"c12: init failed\n"); exit(2);} obj=T.obj; }
    trash_original();
    for(i=0;i<X.hl;i++){ obs_t t; uint64_t m;
       foreign_calls(fe,fd,fd2,i+1);
@@ -450,8 +467,8 @@ static void run_twin(int pat,int cmp,unsigned char *timg){
       m=obs_diff(&X.hist[i].o,&t);
       if (m){ char dn[400],dv[900],sig[500]; diff_names(m,dn,sizeof dn); diff_values(m,&X.hist[i].o,&t,dv,sizeof dv);
          snprintf(sig,sizeof sig,"twin_neq_original:%s:%s",K->name,dn);
-         if (rep_new(sig)) mc_fail(sig,"%s: a second object (%s, %d unrelated objects alive, unrelated calls interleaved, other stack garbage) given the same calls differs at history op %d (%s):%s (original vs twin)",
-            hist_str(NULL,0),use_create?"library create()":"init in a differently poisoned block",k,i+1,OPS[X.hist[i].op].name,dv); }
+         if (rep_new(sig)) mc_fail(sig,"%s: a second object (%s 0x%02x, %d unrelated objects alive, unrelated calls interleaved, other stack garbage) given the same calls differs at history op %d (%s):%s (original vs twin)",
+            hist_str(NULL,0),use_create?"library create() after dirtying the heap with":"init in a block pre-filled with",poison,k,i+1,OPS[X.hist[i].op].name,dv); }
    }
    revive_original();
    memcpy(timg,obj,X.n);
@@ -459,15 +476,19 @@ static void run_twin(int pat,int cmp,unsigned char *timg){
    if (fe) opus_encoder_destroy(fe); if (fd) opus_decoder_destroy(fd); if (fd2) opus_decoder_destroy(fd2); free(junk);
 }
 static void check_twin(const unsigned char *s,int p,int L){
-   unsigned char *timg=malloc(X.n);
-   mc_case("twin","%s",hist_str(NULL,0));
-   run_twin(0x77,1,timg);
-   MC_INC(c_eval); MC_INC(c_twin);
-   if (img_cmp(timg,s,X.n)){
-      /* different bytes are not a violation in themselves (the statement is about behaviour).  Same stack garbage as the original: */
-      run_twin(0x11,0,timg);
-      if (!img_cmp(timg,s,X.n)) MC_INC(c_garbage_twin);      /* only dead stack garbage differed: the twin is a clone, covered by (i) */
-      else { MC_INC(c_twin_bytes_differ); check_copy(s,timg,p,L,"twin",0,0); }   /* run every suffix on the twin as well */
+   unsigned char *timg=malloc(X.n); int v,v0=g_twins_all?0:-1,v1=g_twins_all?7:-1;
+   for(v=v0;v<=v1;v++){
+      mc_case("twin","%s twin variant %d",hist_str(NULL,0),v);
+      run_twin(0x77,1,timg,v);
+      MC_INC(c_eval); MC_INC(c_twin);
+      if (img_cmp(timg,s,X.n)){
+         /* different bytes are not a violation in themselves (the statement is about behaviour).  Same stack garbage as the original: */
+         run_twin(0x11,0,timg,v);
+         if (!img_cmp(timg,s,X.n)) MC_INC(c_garbage_twin);      /* only dead stack garbage differed: the twin is a clone, covered by (i) */
+         else { MC_INC(c_twin_bytes_differ);
+            /* run every suffix on the twin as well (all-variants mode: every variant at depth <= 1, one rotating variant deeper) */
+            if (v<0 || p<=1 || v==(int)(X.serial&7)){ char what[24]; snprintf(what,sizeof what,"twin"); check_copy(s,timg,p,L,what,0,0); } }
+      }
    }
    free(timg);
 }
@@ -529,6 +550,13 @@ done:
    ob_free(&X.A);
 }
 
+/* --bases: "all", or a comma separated list of indices / ranges "a-b"; a plain digit string "0123" selects single-digit indices */
+static void engine_parse_bases(const char *spec,int nb){
+   g_nbsel=0;
+   if (!strcmp(spec,"all")){ int i; for(i=0;i<nb&&g_nbsel<96;i++) g_bsel[g_nbsel++]=i; return; }
+   if (!strchr(spec,',')&&!strchr(spec,'-')){ int i; for(i=0;spec[i];i++) if(spec[i]>='0'&&spec[i]<='9'&&spec[i]-'0'<nb) g_bsel[g_nbsel++]=spec[i]-'0'; return; }
+   { const char *q=spec; while(*q){ int a=(int)strtol(q,(char**)&q,10),b2=a,i; if(*q=='-'){ q++; b2=(int)strtol(q,(char**)&q,10); } for(i=a;i<=b2&&i<nb&&g_nbsel<96;i++) g_bsel[g_nbsel++]=i; if(*q==',') q++; else if(*q) break; } }
+}
 /* An item can emit failures with several signatures.  ./check verifies each reported signature by re-running the item with --only
  * in the same output directory, and the runtime names replay files <prop>-<part>-<item>-<n> with n restarting at 0 in every
  * process, so such a re-run would overwrite the replay files written by the exploring run with files of other signatures.
@@ -538,13 +566,20 @@ static void engine_replay_outdir(void){
 }
 static int engine_main(void){
    int i; long nitems; char nm[32];
-   { char *here=(char*)__builtin_frame_address(0); g_sp_target=(char*)(((uintptr_t)here-(1<<20))&~(uintptr_t)63); }
-   D=(int)mc_arg("--depth",MC.tier?5:4); if(D<3) D=3; if(D>MAXD) D=MAXD;
+   /* fixed absolute stack position for every op (2 MB aligned, so it does not move with the size of argv / environment: a replay with
+      other arguments sees the same stack addresses, hence the same state bytes where a state holds a stack pointer) */
+   { char *here=(char*)__builtin_frame_address(0); g_sp_target=(char*)(((uintptr_t)here-(1<<20))&~(uintptr_t)((2<<20)-1)); }
+   D=(int)mc_arg("--depth",MC.tier?5:4); if(D<2) D=2; if(D>MAXD) D=MAXD;
+   g_twins_all=(int)mc_arg("--twins",0)>=8;
+#if !C12_ASAN && !C12_MSAN
+   /* plain glibc malloc: keep freed blocks in the heap (no mmap / trim) so that create() can be handed dirty memory */
+   mallopt(M_MMAP_THRESHOLD,1<<30); mallopt(M_TRIM_THRESHOLD,1<<30); mallopt(M_TOP_PAD,64<<20);
+#endif
    for(i=0;i<NOPS;i++) if(OPS[i].type==OP_RESET) RESET_OP=i;
    if (RESET_OP<0||NOPS>MAXOPS||K->ng>MAXG){ fprintf(stderr,"c12: bad alphabet\n"); return 2; }
    c_states=mc_counter("states"); c_trans=mc_counter("transitions"); c_eval=mc_counter("evaluations"); c_dn=mc_counter("distinct_nontrivial");
    c_exec=mc_counter("op_executions"); c_clone=mc_counter("clone_comparisons"); c_reset=mc_counter("reset_comparisons"); c_twin=mc_counter("twin_comparisons");
-   c_twin_bytes_differ=mc_counter("twins_with_different_bytes"); c_garbage=mc_counter("dead_garbage_bytes_in_state"); c_garbage_twin=mc_counter("twins_differing_only_by_dead_garbage"); c_reset_unclassified=mc_counter("reset_failures_not_analysed"); c_reset_implied=mc_counter("reset_getter_diffs_implied_by_stale_getter"); c_reset_stale=mc_counter("prefix_points_with_stale_getter_after_reset"); c_fresh=mc_counter("fresh_settings_objects"); c_selfloop=mc_counter("idempotent_edges_skipped");
+   c_twin_bytes_differ=mc_counter("twins_with_different_bytes"); c_garbage=mc_counter("dead_garbage_bytes_in_state"); c_garbage_twin=mc_counter("twins_differing_only_by_dead_garbage"); c_reset_unclassified=mc_counter("reset_failures_not_analysed"); c_reset_implied=mc_counter("reset_getter_diffs_implied_by_stale_getter"); c_reset_stale=mc_counter("prefix_points_with_stale_getter_after_reset"); c_dirty_seen=mc_counter("create_saw_dirty_heap"); c_fresh=mc_counter("fresh_settings_objects"); c_selfloop=mc_counter("idempotent_edges_skipped");
    for(i=0;i<=D&&i<=MAXD;i++){ snprintf(nm,sizeof nm,"prefix_points_depth%d",i); c_prefix[i]=mc_counter(nm); }
    g_visited=mc_set_new(24); g_distinct=mc_set_new(24); g_obsset=mc_set_new(24);
    mc_info("kind=%s depth_bound=%d alphabet=%d ops bases=%d asan=%d msan=%d",K->name,D,NOPS,g_nbsel,C12_ASAN,C12_MSAN);
